@@ -1274,10 +1274,57 @@ pub fn guess_kind(b: &[u8]) -> Kind {
 
 // ------------------------------------------------------------------ G9 targeted families
 
+/// Folded header values: first line of every length, continuation lines of a few lengths, head
+/// with and without a body (vector scanners re-enter on each continuation line with the earlier
+/// lines, CRLF included, still behind the cursor), plus small instances of the G7 families.
+fn g9_folds_and_families(kind: Kind, level: usize, f: &mut dyn FnMut(&[u8])) {
+    let line: &[u8] = match kind {
+        Kind::Req => b"GET / HTTP/1.1\r\n",
+        Kind::Resp => b"HTTP/1.1 200 OK\r\n",
+        _ => b"",
+    };
+    if kind == Kind::Chunk {
+        return;
+    }
+    let amax = if level == 0 { 40 } else if level == 1 { 80 } else { 140 };
+    for a in 0..=amax {
+        for &b in &[0usize, 1, 5, 14, 29, 33] {
+            for (k, tail) in [&b"\r\n"[..], b"\r\nbody-of-the-message-0123456789-0123456789", b"\r\nNext: x\r\n\r\n"].iter().enumerate() {
+                if level == 0 && (a % 3 != 0 || k == 2) {
+                    continue;
+                }
+                let mut m = line.to_vec();
+                m.extend_from_slice(b"F: ");
+                m.extend(std::iter::repeat(b'v').take(a));
+                m.extend_from_slice(if (a + b) % 4 == 0 { b"\n" } else { b"\r\n" });
+                m.push(if b % 2 == 0 { b' ' } else { b'\t' });
+                m.extend(std::iter::repeat(b'w').take(b));
+                m.extend_from_slice(b"\r\n");
+                if k == 2 {
+                    m.truncate(m.len() - 2);
+                    m.extend_from_slice(b"\r\n \r\n\tlast");
+                }
+                m.extend_from_slice(tail);
+                f(&m);
+            }
+        }
+    }
+    let sizes: &[usize] = if level == 0 { &[64] } else if level == 1 { &[64, 300, 1500] } else { &[64, 300, 1500, 6000] };
+    for fam in 0..G7_FAMILIES {
+        for &n in sizes {
+            let s = g7(fam, n);
+            if Kind::of(s.entry) == kind && s.buf.len() <= 8000 {
+                f(&s.buf);
+            }
+        }
+    }
+}
+
 /// Targeted families named by the property records: all 1000 status codes,
 /// UTF-8 boundary sequences in targets straddling block boundaries, chunk
 /// digit-count patterns. `level` 0 = sparse (tiny/small), 1 = quick, 2 = thorough.
 pub fn g9_targeted(kind: Kind, level: usize, f: &mut dyn FnMut(&[u8])) {
+    g9_folds_and_families(kind, level, f);
     match kind {
         Kind::Resp => {
             let step = if level == 0 { 37 } else { 1 };
